@@ -83,9 +83,12 @@ def run_one(params, ch):
 def run_iso(params, ch):
     """A suspended streaming_shell with distinct bytes in flight while the stream under test runs; every wire order."""
     twin, api, decode = params['twin'], params['api'], params['decode']
-    other = [b'OTHER-1', b'\xe3\x81', b'\x82OTHER-3']
+    other = [b'OTHER-1', b'\xe3\x81', b'\x82OTHER-3'][:params.get('nother', 3)]
     mine = [b'mi', b'\xc3', b'\xa9ne']
     cfg = {'shell': {b'shell:other': other, {'shell': b'shell:c', 'exec_out': b'exec:c', 'streaming_shell': b'shell:c'}[api]: mine}, 'clse': params['clse']}
+    if params.get('family'):
+        from .. import scen
+        cfg['remote_ids'] = scen.REMOTE_FAMILIES[params['family']]
     s = Session(ch, cfg, twin=twin)
     try:
         s.op(('connect',))
@@ -221,7 +224,7 @@ def parts(tier):
                 for t in twins:
                     big.append({'data': pay + b'\x81\x82z', 'chunks': [pay, b'\x81\x82z'], 'api': a, 'decode': True, 'twin': t, 'clse': 'after-ack', 'maxdata': md})
     out.append(Part('maxdata-payloads', big, run_one, what='payload sizes 1, maxdata-1, maxdata for maxdata 4096 and 1 MiB', bound='%d cases' % len(big)))
-    iso = [{'twin': t, 'api': a, 'decode': d, 'clse': c} for t in twins for a in apis for d in (True, False) for c in ('after-ack', 'eager')]
+    iso = [{'twin': t, 'api': a, 'decode': d, 'clse': c, 'nother': n} for t in twins for a in apis for d in (True, False) for c in ('after-ack', 'eager') for n in (3, 1)]
     out.append(Part('isolation', iso, run_iso, {'dev-order': None}, what='second live stream with bytes in flight, all device wire orders',
                     bound='all dev-order choices'))
     late = [{'twin': t, 'api': a, 'decode': d, 'clse': c, 'delay': dl, 'nlate': nl} for t in twins for a in apis for d in (True, False) for c in ('after-ack', 'eager')
